@@ -264,6 +264,14 @@ Section Mirrors.
                   | _, _ => None end).
   Proof. reflexivity. Qed.
 
+  Lemma pexec_tuple f rho xs es rest :
+    pexec (S f) rho (PTuple xs es :: rest) =
+    pcont f rest (if Nat.leb (length xs) (length es)
+                  then match pevals sem (firstn (length xs) es) rho with
+                       | Some vs => Some (pbinds xs vs rho, [], ONormal) | None => None end
+                  else None).
+  Proof. reflexivity. Qed.
+
   Lemma pexec_break f rho rest : pexec (S f) rho (PBreak :: rest) = Some (rho, [], OBreak).
   Proof. reflexivity. Qed.
 
